@@ -1123,4 +1123,244 @@ theorem singleMsgs_fit (isClient : Bool) (msgs : List (Nat × List UInt8)) : ∀
       · refine ⟨⟨hf (t, p) (List.mem_cons_self ..), fun x hx => by simp at hx⟩, fun f hf' => by simp at hf'⟩
       · exact ih _ hrest m hm
 
+/-! ## frames are self-delimiting; a frame cut short is not delivered -/
+
+theorem take_append_ge (n : Nat) (l m : List UInt8) (h : n ≤ l.length) : (l ++ m).take n = l.take n :=
+  List.take_append_of_le_length h
+
+theorem drop_append_ge (n : Nat) (l m : List UInt8) (h : n ≤ l.length) : (l ++ m).drop n = l.drop n ++ m :=
+  List.drop_append_of_le_length h
+
+/-- what `parseExt` reads does not depend on what follows -/
+theorem parseExt_append (b0 mlen : UInt8) (inp more : List UInt8) (fin : Bool) (op : Nat) (masked : Bool) (len : Int)
+    (mask : Nat) (rest : List UInt8) (h : parseExt b0 mlen inp = .ok fin op masked len mask rest) :
+    parseExt b0 mlen (inp ++ more) = .ok fin op masked len mask (rest ++ more) := by
+  unfold parseExt at h ⊢
+  simp only at h ⊢
+  -- the extended-length step
+  have key : ∀ (ext : Option (Int × List UInt8)) (ext' : Option (Int × List UInt8)),
+      (∀ l i, ext = some (l, i) → ext' = some (l, i ++ more)) →
+      (match ext with
+        | none => Hdr.close
+        | some (len, inp) =>
+          if (mlen.toNat &&& recvMaskBit != 0) = true then
+            if inp.length < 4 then Hdr.close
+            else Hdr.ok (b0.toNat &&& recvFinBit != 0) (b0.toNat &&& opMask) true len (beVal (inp.take 4)) (inp.drop 4)
+          else Hdr.ok (b0.toNat &&& recvFinBit != 0) (b0.toNat &&& opMask) false len 0 inp) = .ok fin op masked len mask rest →
+      (match ext' with
+        | none => Hdr.close
+        | some (len, inp) =>
+          if (mlen.toNat &&& recvMaskBit != 0) = true then
+            if inp.length < 4 then Hdr.close
+            else Hdr.ok (b0.toNat &&& recvFinBit != 0) (b0.toNat &&& opMask) true len (beVal (inp.take 4)) (inp.drop 4)
+          else Hdr.ok (b0.toNat &&& recvFinBit != 0) (b0.toNat &&& opMask) false len 0 inp) = .ok fin op masked len mask (rest ++ more) := by
+    intro ext ext' hrel hm
+    cases ext with
+    | none => simp at hm
+    | some p =>
+      obtain ⟨l, i⟩ := p
+      rw [hrel l i rfl]
+      simp only at hm ⊢
+      split at hm
+      · split at hm
+        · simp at hm
+        · next hlen =>
+          have h4 : 4 ≤ i.length := by omega
+          simp only [Hdr.ok.injEq] at hm
+          obtain ⟨h1, h2, h3, h4', h5, h6⟩ := hm
+          rw [if_pos (by assumption), if_neg (by simp; omega), take_append_ge 4 i more h4, drop_append_ge 4 i more h4]
+          subst h1 h2 h3 h4' h5 h6
+          rfl
+      · simp only [Hdr.ok.injEq] at hm
+        obtain ⟨h1, h2, h3, h4', h5, h6⟩ := hm
+        rw [if_neg (by assumption)]
+        subst h1 h2 h3 h4' h5 h6
+        rfl
+  refine key _ _ ?_ h
+  intro l i hext
+  split at hext
+  · next h16 =>
+    rw [if_pos h16]
+    split at hext
+    · simp at hext
+    · next hl =>
+      have h2 : 2 ≤ inp.length := by omega
+      simp only [Option.some.injEq, Prod.mk.injEq] at hext
+      obtain ⟨e1, e2⟩ := hext
+      rw [if_neg (by simp; omega), take_append_ge 2 inp more h2, drop_append_ge 2 inp more h2, e1, e2]
+  · next h16 =>
+    rw [if_neg h16]
+    split at hext
+    · next h64 =>
+      rw [if_pos h64]
+      split at hext
+      · simp at hext
+      · next hl =>
+        have h8 : 8 ≤ inp.length := by omega
+        rw [if_neg (by simp; omega), take_append_ge 8 inp more h8, drop_append_ge 8 inp more h8]
+        split at hext
+        · simp at hext
+        · next hok =>
+          simp only [Option.some.injEq, Prod.mk.injEq] at hext
+          obtain ⟨e1, e2⟩ := hext
+          rw [if_neg hok, e1, e2]
+    · next h64 =>
+      rw [if_neg h64]
+      simp only [Option.some.injEq, Prod.mk.injEq] at hext
+      obtain ⟨e1, e2⟩ := hext
+      rw [e1, e2]
+
+/-- frames are self-delimiting: what `readFrame` returns does not depend on the bytes after the frame -/
+theorem readFrame_append (inp more : List UInt8) (fin : Bool) (op : Nat) (buf rest : List UInt8)
+    (h : readFrame inp = .ok fin op buf rest) : readFrame (inp ++ more) = .ok fin op buf (rest ++ more) := by
+  unfold readFrame at h
+  split at h
+  · simp at h
+  · simp at h
+  · next b0 mlen r =>
+    split at h
+    · simp at h
+    · next hne =>
+      split at h
+      · simp at h
+      · next fin' opcode masked len mask rest' hp =>
+        simp only at h
+        split at h
+        · simp at h
+        · next hlen =>
+          have hn : len.toNat ≤ rest'.length := by omega
+          have hr : (r ++ more).isEmpty = false := by
+            cases r with
+            | nil => simp at hne
+            | cons a t => rfl
+          show readFrame (b0 :: mlen :: (r ++ more)) = _
+          unfold readFrame
+          simp only [hr, parseExt_append b0 mlen r more fin' opcode masked len mask rest' hp]
+          rw [if_neg (by simp), if_neg (by simp; omega), take_append_ge _ rest' more hn, drop_append_ge _ rest' more hn]
+          split at h
+          · simp at h
+          · next b hb =>
+            simp only [Frame.ok.injEq] at h
+            obtain ⟨h1, h2, h3, h4⟩ := h
+            subst h1 h2 h3 h4
+            rfl
+
+/-- **A frame cut short is never delivered**: for every proper prefix of an RFC frame the frame reader
+    answers "close" — no buffer, no garbage. -/
+theorem truncated_frame_close (fin : Bool) (op : Nat) (hop : op < 16) (key : Option Rfc6455.Key) (p : List UInt8)
+    (hl : p.length ≤ 2147483632) (k : Nat) (hk : k < (Rfc6455.frame fin op key p).length) :
+    readFrame ((Rfc6455.frame fin op key p).take k) = .close := by
+  cases hr : readFrame ((Rfc6455.frame fin op key p).take k) with
+  | close => rfl
+  | fault => exact absurd hr (readFrame_no_fault _)
+  | ok f o b rest =>
+    exfalso
+    have happ := readFrame_append _ ((Rfc6455.frame fin op key p).drop k) f o b rest hr
+    rw [List.take_append_drop] at happ
+    by_cases hsp : p ≠ [] ∨ key.isSome = true
+    · have hfull := readFrame_frame fin op hop key p hl [] (by rcases hsp with h | h; exact Or.inl h; exact Or.inr (Or.inl h))
+      rw [List.append_nil] at hfull
+      rw [hfull] at happ
+      simp only [Frame.ok.injEq] at happ
+      have : rest ++ (Rfc6455.frame fin op key p).drop k = [] := happ.2.2.2.symm
+      have : ((Rfc6455.frame fin op key p).drop k).length = 0 := by
+        have := congrArg List.length this; simp at this; omega
+      simp at this; omega
+    · have hp : p = [] := by
+        apply Classical.byContradiction; intro h; exact hsp (Or.inl h)
+      have hk' : key = none := by
+        cases hk' : key with
+        | none => rfl
+        | some x => exact absurd (Or.inr (by simp [hk'])) hsp
+      subst hp hk'
+      rw [readFrame_frame_end] at happ
+      simp at happ
+
+/-! ## a stream cut between complete messages and the next frame -/
+
+/-- complete messages followed by more input: all delivered, the reader is then exactly at `rest` -/
+theorem receiveAll_msgs (ms : List Rfc6455.Msg) : ∀ (fuel : Nat) (c : Conn) (acc : List (List UInt8)) (rest : List UInt8),
+    Live c → (∀ m ∈ ms, MsgFits m) → rest ≠ [] → c.inp = ms.flatMap Rfc6455.Msg.bytes ++ rest → c.inp.length < fuel →
+    ∃ (extra : List (List UInt8)) (c' : Conn) (fuel' : Nat), Live c' ∧ c'.inp = rest ∧ c'.isClient = c.isClient ∧ rest.length < fuel' ∧
+      receiveAll fuel c acc = receiveAll fuel' c' (extra.reverse ++ acc) ∧
+      extra.filter (· ≠ []) = (ms.map (·.payload)).filter (· ≠ []) := by
+  induction ms with
+  | nil =>
+    intro fuel c acc rest hc _ _ hi hfu
+    refine ⟨[], c, fuel, hc, by simpa using hi, rfl, ?_, by simp, by simp⟩
+    rw [hi] at hfu; simpa using hfu
+  | cons m ms ih =>
+    intro fuel c acc rest hc hm hr hi hfu
+    have hmf : MsgFits m := hm m (List.mem_cons_self ..)
+    have hmb : m.bytes = Rfc6455.ctlBytes m.first.before ++ Rfc6455.frame m.more.isEmpty (msgOp m) m.first.key m.first.payload ++
+        Rfc6455.moreBytes m.more := rfl
+    simp only [List.flatMap_cons] at hi
+    rw [hmb] at hi
+    simp only [List.append_assoc] at hi
+    have hb := ctlBytes_length m.first.before
+    have hfr := frame_length_ge m.more.isEmpty (msgOp m) m.first.key m.first.payload
+    have hilen : c.inp.length = (Rfc6455.ctlBytes m.first.before).length +
+        ((Rfc6455.frame m.more.isEmpty (msgOp m) m.first.key m.first.payload).length +
+          ((Rfc6455.moreBytes m.more).length + (ms.flatMap Rfc6455.Msg.bytes ++ rest).length)) := by
+      rw [hi]; simp [msgOp]
+    obtain ⟨f2, hf2⟩ : ∃ f2, fuel = (f2 + 1) + m.first.before.length := ⟨fuel - m.first.before.length - 1, by omega⟩
+    have hne1 : Rfc6455.frame m.more.isEmpty (msgOp m) m.first.key m.first.payload ++
+        (Rfc6455.moreBytes m.more ++ (ms.flatMap Rfc6455.Msg.bytes ++ rest)) ≠ [] := by
+      simp [frame_ne_nil]
+    obtain ⟨c1, hl1, hi1, hcl1', hr1⟩ := receiveAll_ctls m.first.before (f2 + 1) c acc _ hc hmf.1.2 hne1 hi
+    obtain ⟨c2, hs2, hi2, hd2, hcc2, hr2⟩ := receive_body m c1 (ms.flatMap Rfc6455.Msg.bytes ++ rest) hl1 hmf.1.1 hmf.2 hi1
+    have hcl1 : c1.isClosed = false := isClosed_frame c1 hl1 _ _ (frame_ne_nil _ (msgOp m) m.first.key m.first.payload) hi1
+    have hrest' : ms.flatMap Rfc6455.Msg.bytes ++ rest ≠ [] := by simp [hr]
+    have hl2 : Live c2 := ⟨by
+      cases hc2 : c2.closed with
+      | false => rfl
+      | true => exact absurd (hd2 hc2) hrest', hs2⟩
+    obtain ⟨extra, c', fuel', h1, h2, h3, h4, h5, h6⟩ := ih f2 c2 (m.payload :: (List.replicate m.first.before.length [] ++ acc)) rest
+      hl2 (fun y hy => hm y (List.mem_cons_of_mem _ hy)) hr hi2 (by rw [hi2]; omega)
+    refine ⟨List.replicate m.first.before.length [] ++ [m.payload] ++ extra, c', fuel', h1, h2, (h3.trans hcc2).trans hcl1', h4, ?_, ?_⟩
+    · rw [hf2, hr1, receiveAll, hcl1]
+      simp only [Bool.false_eq_true, if_false, hr2, h5]
+      congr 1
+      simp
+    · simp only [List.filter_append, filter_replicate_nil, List.nil_append, List.map_cons, h6]
+      by_cases hp : m.payload = [] <;> simp [hp]
+
+/-- **The stream is cut inside the first frame of a message or inside a control frame between messages**:
+    the complete messages before the cut are delivered intact, the cut frame yields nothing, the
+    connection ends closed. -/
+theorem receiveAll_cut (ms : List Rfc6455.Msg) (cs : List Rfc6455.Ctl) (fin : Bool) (op : Nat) (hop : op < 16)
+    (key : Option Rfc6455.Key) (p : List UInt8) (k : Nat) (c : Conn)
+    (hc : Live c) (hm : ∀ m ∈ ms, MsgFits m) (hcs : CtlsFit cs) (hp : Fits p)
+    (hk0 : 0 < k) (hk : k < (Rfc6455.frame fin op key p).length)
+    (hi : c.inp = ms.flatMap Rfc6455.Msg.bytes ++ (Rfc6455.ctlBytes cs ++ (Rfc6455.frame fin op key p).take k)) :
+    ∃ extra c', receiveAll (c.inp.length + 1) c [] = (extra, c') ∧
+      extra.filter (· ≠ []) = (ms.map (·.payload)).filter (· ≠ []) ∧ c'.closed = true ∧ c'.fault = false := by
+  have hcut : (Rfc6455.frame fin op key p).take k ≠ [] := by
+    intro h0
+    have := congrArg List.length h0
+    simp only [List.length_take, List.length_nil] at this; omega
+  have hrest : Rfc6455.ctlBytes cs ++ (Rfc6455.frame fin op key p).take k ≠ [] := by simp [hcut]
+  obtain ⟨extra, c1, f1, hl1, hi1, _, hf1, hr1, hx1⟩ := receiveAll_msgs ms (c.inp.length + 1) c [] _ hc hm hrest hi (by omega)
+  have hcl := ctlBytes_length cs
+  obtain ⟨f2, hf2⟩ : ∃ f2, f1 = (f2 + 1) + cs.length := ⟨f1 - cs.length - 1, by simp at hf1; omega⟩
+  obtain ⟨c2, hl2, hi2, _, hr2⟩ := receiveAll_ctls cs (f2 + 1) c1 (extra.reverse ++ []) _ hl1 hcs hcut hi1
+  have hclosed2 : c2.isClosed = false := by
+    unfold Conn.isClosed; rw [hl2.open_, hi2]
+    cases hh : (Rfc6455.frame fin op key p).take k with
+    | nil => exact absurd hh hcut
+    | cons a t => rfl
+  have hrecv : receive c2 = ([], { c2 with closed := true, inp := [] }) := by
+    unfold receive
+    rw [recvLoop, hclosed2, hi2, truncated_frame_close fin op hop key p hp k hk]
+    simp
+  refine ⟨(([] : List UInt8) :: (List.replicate cs.length [] ++ (extra.reverse ++ []))).reverse, { c2 with closed := true, inp := [] }, ?_, ?_, rfl, hl2.sound⟩
+  · rw [hr1, hf2, hr2, receiveAll, hclosed2]
+    simp only [Bool.false_eq_true, if_false, hrecv]
+    cases f2 with
+    | zero => simp [receiveAll]
+    | succ f => simp [receiveAll, Conn.isClosed]
+  · simp only [List.reverse_cons, List.reverse_append, List.reverse_reverse, List.reverse_nil, List.nil_append,
+      List.append_nil, List.reverse_replicate, List.filter_append, filter_replicate_nil, hx1]
+    simp
+
 end AslProofs.WebSocket
